@@ -496,6 +496,7 @@ func parseModString(str string) (andMask int32, orMask int32, err error) {
 				orMask |= settingMask
 			} else {
 				andMask &= vdb.PermBits ^ settingMask
+				orMask &^= settingMask
 			}
 		} else if c == ',' {
 			addOrRemove, groupMask, settingMask = 0, 0, 0
